@@ -8,7 +8,7 @@ import vlib
 prop, jobname, pname, outf = sys.argv[1:5]
 mod = importlib.import_module('props.' + prop)
 job = [j for j in mod.jobs() if j.name == jobname][0]
-d, _ = vlib.make_scratch(job.tus, print)
+d, _ = vlib.make_scratch(job.tus, print, set(job.functions))
 a, b = d + '/a.gb', d + '/b.gb'
 dflags = ['-D%s=%s' % kv for kv in job.defines.items()]
 rc, out, _ = vlib.run(vlib.cc_base([], d) + dflags + ['--function', job.entry, '/verif/harness/' + job.harness, '-o', a], 300)
